@@ -829,6 +829,102 @@ def rule_r9(prog, res):
     res.floor('R9', 'cache accesses', m, 4)
 
 
+# ------------------------------------------------------------------ R10
+def rule_r10(prog, res):
+    res.rule('R10', 'every class owns its variant registry; propagation walks '
+             'a snapshot of it; Mandatory() only tightens; a customization '
+             'that does not ask for digits keeps the parent\'s length cap')
+    meta = prog.cls('spyne.model.complex:ComplexModelMeta')
+    f = meta.methods.get('__init__')
+    st = [a for a in walk_no_defs(f.node) if isinstance(a, ast.Assign) and any(
+        unparse(t).endswith('Attributes._variants') for t in a.targets) and
+        isinstance(a.value, ast.Constant) and a.value.value is None]
+    ok = False
+    for a in st:
+        atoms = guardspec.atoms_at(a, f.node)
+        if all('__orig__' in t for t, _ in atoms):
+            ok = True
+    res.ob('R10', f.where, 'ComplexModelMeta.__init__ %s' % (
+        'gives every non-variant class its own _variants slot' if ok else
+        'leaves _variants to attribute lookup (shared with the parent)'),
+        'ok' if ok else 'VIOLATED')
+    if not ok:
+        res.finding('R10', 'ComplexModelMeta.__init__|shared-variant-registry',
+                    f.where, 'a subclass finds its parent\'s _variants through '
+                    'attribute lookup (Sub.Attributes extends Base.Attributes) '
+                    'and the metaclass does not reset it: Sub.append_field() '
+                    'reaches the variants of Base, and Base.append_field() '
+                    'writes into the own field table of the variants of Sub')
+    cm = prog.cls('spyne.model.complex:ComplexModelBase')
+    n = 0
+    for nm, g in sorted(cm.methods.items()):
+        for loop in walk_no_defs(g.node):
+            if isinstance(loop, ast.For) and '_variants' in unparse(loop.iter):
+                n += 1
+                it = loop.iter
+                snap = isinstance(it, ast.Call) and call_name(it) in (
+                    'list', 'tuple', 'copy', 'keys') and (
+                    call_name(it) != 'keys')
+                where = '%s:%d' % (g.module.relpath, loop.lineno)
+                res.ob('R10', where, '%s iterates %s' % (nm, unparse(it)[:50]),
+                       'ok' if snap else 'VIOLATED')
+                if not snap:
+                    res.finding('R10', 'ComplexModelBase.%s|live-registry' % nm,
+                                where, '%s iterates the live variant '
+                                'registry; customizing the field type for a '
+                                'variant (child_attrs_all) registers a new '
+                                'variant meanwhile: RuntimeError after some '
+                                'variants got the field and others did not' %
+                                nm)
+    res.floor('R10', 'walks over the variant registry', n, 3)
+    m = prog.module('spyne.model.complex')
+    mf = m.functions.get('Mandatory')
+    ups = [c for c in calls_in(mf.node) if call_name(c) == 'update' and
+           'min_len' in unparse(c)] + [
+        a for a in walk_no_defs(mf.node) if isinstance(a, ast.Assign) and
+        "'min_len'" in unparse(a.targets[0])]
+    res.floor('R10', 'min_len updates in Mandatory', len(ups), 1)
+    for u in ups:
+        stm = u
+        while not isinstance(stm, ast.stmt):
+            stm = stm._parent
+        atoms = guardspec.atoms_at(stm, mf.node)
+        explicit = any("'min_len'" in t and 'kwargs' in t for t, _ in atoms)
+        stricter = any('Attributes.min_len' in t for t, _ in atoms)
+        ok = explicit and stricter
+        where = '%s:%d' % (m.relpath, stm.lineno)
+        res.ob('R10', where, 'Mandatory sets min_len=1 under %s' % [
+            t for t, _ in atoms], 'ok' if ok else 'VIOLATED')
+        if not ok:
+            res.finding('R10', 'Mandatory|min-len-loosened', where,
+                        'Mandatory() sets min_len=1 without looking at an '
+                        'explicit min_len argument or at the bound the type '
+                        'already has: Mandatory(Unicode(min_len=3)) accepts '
+                        '"ab", which its parent refuses')
+    d = prog.cls('spyne.model.primitive.number:Decimal')
+    sc = d.methods.get('_s_customize')
+    n2 = 0
+    for a in walk_no_defs(sc.node):
+        if isinstance(a, ast.Assign) and any(
+                "'max_str_len'" in unparse(t) for t in a.targets) and \
+                isinstance(a.value, ast.BinOp):
+            n2 += 1
+            src = unparse(a.value)
+            ok = 'cls.Attributes.total_digits' not in src
+            where = '%s:%d' % (sc.module.relpath, a.lineno)
+            res.ob('R10', where, 'Decimal._s_customize derives max_str_len '
+                   'from %s' % src, 'ok' if ok else 'VIOLATED')
+            if not ok:
+                res.finding('R10', 'Decimal._s_customize|cap-from-parent-'
+                            'digits', where, 'max_str_len is recomputed from '
+                            'the parent\'s total_digits on every '
+                            'customization: Integer32(min_occurs=1) and '
+                            'Decimal(max_str_len=10)(nillable=False) lose '
+                            'their cap (infinite), and Decimal(5, 2) gets its '
+                            'cap one customization late')
+    res.floor('R10', 'derived length caps', n2, 1)
+
+
 def run(prog, res, tier):
     res.run_rule(rule_r1, prog, res)
     res.run_rule(rule_r2, prog, res)
@@ -839,12 +935,34 @@ def run(prog, res, tier):
     res.run_rule(rule_r7, prog, res)
     res.run_rule(rule_r8, prog, res)
     res.run_rule(rule_r9, prog, res)
+    res.run_rule(rule_r10, prog, res)
 
 
 _C = 'spyne/model/complex.py'
 _B = 'spyne/model/_base.py'
 
 MUTANTS = [
+    Mutant('variant-registry-shared-with-parent', 'R10', 'fire', _C,
+           in_func('ComplexModelMeta.__init__',
+                   "        if self.__orig__ is None:\n            "
+                   "self.Attributes._variants = None\n", ""),
+           'shared-variant-registry'),
+    Mutant('variants-walked-live', 'R10', 'fire', _C,
+           in_func('ComplexModelBase._append_to_variants',
+                   "for c in list(cls.Attributes._variants):",
+                   "for c in cls.Attributes._variants:"), 'live-registry'),
+    Mutant('mandatory-forces-min-len', 'R10', 'fire', _C,
+           in_func('Mandatory',
+                   "    if issubclass(cls, Unicode) and 'min_len' not in "
+                   "kwargs \\\n                                             "
+                   "and cls.Attributes.min_len < 1:",
+                   "    if issubclass(cls, Unicode):"), 'min-len-loosened'),
+    Mutant('cap-from-parent-digits', 'R10', 'fire',
+           'spyne/model/primitive/number.py',
+           in_func('Decimal._s_customize',
+                   "kwargs['max_str_len'] = td + 3",
+                   "kwargs['max_str_len'] = cls.Attributes.total_digits + 3"),
+           'cap-from-parent-digits'),
     Mutant('mixin-fields-prepended-unreversed', 'R9', 'fire', _C,
            in_func('_get_type_info',
                    "for k, v in reversed(mixin.items()):",
